@@ -26,7 +26,7 @@ def main():
             r = subprocess.run(["patch", "-p1", "-d", root, "-i", os.path.abspath(spec[1])], capture_output=True, text=True)
             if r.returncode:
                 print(r.stdout, r.stderr); return 3
-        env = dict(os.environ, XYZPY_VERIF_REPO=root)
+        env = dict(os.environ, XYZPY_VERIF_REPO=root, PYVC_EVIDENCE_DIR=os.path.join(d, "evidence"))
         rc = 0
         for pid in pids:
             r = subprocess.run(["/verif/check", pid], env=env, capture_output=True, text=True)
